@@ -14,7 +14,7 @@ COQ_IMPORTS = ("From Synnax Require Import Common.Base Cesium.Store Cesium.Index
                "Cesium.UnaryIter Cesium.UnaryWrite Cesium.Read Monitors.Mon_C10.")
 COQ_EXTRA = "Local Open Scope Z_scope."
 CASE_TYPE = "case_t"
-COUNTS = {"quick": 900, "thorough": 20000}
+COUNTS = {"quick": 1500, "thorough": 20000}
 SHARD = 70
 OPS_KEY = "ops"
 RULE = ("layouts written through the real cesium writer: 1-3 index channels x 0-3 data channels (int64/uint8/float32/"
@@ -31,10 +31,12 @@ TRUSTED = ["hook cesium/export_verif_c10.go (VerifOpenUnaryIterator = uDB.OpenIt
 ASSUMES = ["time stamps and spans within [0, 2^63-1]; int64 wrap-around modelled only at ref+1 / End-1 of the domain iterator bounds",
            "one writer session open at a time (file acquisition is then deterministic)",
            "variable-length offset cache is transparent (rebuilt tables equal published ones)"]
-PARTIAL = ("C10_step_exact_partial / C10_full_traversal_partial hold for layouts in which every data domain lies inside ONE index "
-           "domain (decidable guard layout_ok); data domains spanning several contiguous index domains (index file rolled over "
-           "inside them) and the backward traversal are covered by the correspondence + monitor only. Known finding F24 "
-           "(C10-auto-prev-eof): backwardStamp makes Prev(AutoSpan) report EOF on a domain boundary; not fixed.")
+PARTIAL = ("C10_step_exact_partial / C10_full_traversal_partial carry the visible hypothesis layout_ok (ascending index stamps, sorted "
+           "data domains, each data domain within a contiguous run of index domains with one sample per index stamp; decidable "
+           "check layout_okb proved sound, satisfied by every generated layout — see layout_guard_sample); that legal histories "
+           "only produce such layouts is observed, not proved. Backward full traversal and the per-series clause: correspondence + "
+           "monitor only. Known finding F24 (C10-auto-prev-eof): backwardStamp makes Prev(AutoSpan) report EOF on a domain "
+           "boundary; not fixed.")
 
 CMDS = {"seek_first": "SeekFirst", "seek_last": "SeekLast", "next_auto": "NextAuto", "prev_auto": "PrevAuto"}
 
@@ -230,7 +232,8 @@ def diagnose(case, r):
 
 def tags(case, r):
     """Signature of the known finding: every rejected clause is the traversal clause (7) of a
-    SeekLast whose following pure Prev(auto) run stops with an EOF error (class 5)."""
+    SeekLast whose following pure Prev(auto) run stops with the error of backwardStamp on a chunk
+    boundary at the first sample of a domain: io.EOF (class 5) or 'failed to resolve position'."""
     if r is None or r.get("panic") or r.get("fatal") or not r.get("outs"):
         return set()
     d = diagnose(case, r)
@@ -243,7 +246,8 @@ def tags(case, r):
         j = n + 1
         eof = False
         while j < len(ops) and ops[j]["c"] == "prev_auto":
-            if r["outs"][j]["err"] == 5:
+            if r["outs"][j]["err"] == 5 or (r["outs"][j]["err"] == 1 and
+                                            "failed to resolve position" in (r["outs"][j].get("msg") or "")):
                 eof = True
                 break
             if r["outs"][j]["err"] != 0:
@@ -285,6 +289,7 @@ def extra(ctx):
                 check.report_case_violation(ctx, small, r2.get(0), "monitor ok_C10 rejects a backward automatic traversal")
                 continue
         check.report_case_violation(ctx, cases[i], res.get(i), "monitor ok_C10 rejects a backward automatic traversal")
+    guard_coverage(ctx)
     onlyM = [i for i in M if i not in V]
     if onlyM:
         i = onlyM[0]
@@ -298,6 +303,26 @@ def extra(ctx):
 def model_dump(case, r):
     t = to_coq(case, r)
     return coq_print(PID, COQ_IMPORTS, COQ_EXTRA + "\nEval vm_compute in model_dump (%s)." % t)[-8000:]
+
+
+def guard_coverage(ctx, n=120):
+    """share of generated layouts inside the decidable hypothesis (layout_okb) of the exactness
+    theorems, evaluated by the model on a fresh sample of the main-stream generator"""
+    rng = random.Random(ctx.seed * 15485863 + 3)
+    cases = [gen_case(rng, ctx.tier) for _ in range(n)]
+    terms = []
+    for c in cases:
+        s = c["setup"]
+        terms.append("Case %s %s %s [] %d %s %s [] []" % (z(s["cap"]), cesgen.c_chans(s["channels"]),
+                     cesgen.c_script(s["script"]), c["key"], c_tr(*c["bounds"]), z(c["chunk"])))
+    out = coq_print(PID, COQ_IMPORTS, COQ_EXTRA + "\nEval vm_compute in map in_guard [%s]." % ";\n".join(terms), timeout=600)
+    out = re.sub(r"\s+", " ", out)
+    m = re.search(r"= (\[[a-z; ]*\]) : list bool", out)
+    if m:
+        vals = [x.strip() for x in m.group(1)[1:-1].split(";") if x.strip()]
+        ctx.extra_cov["layout_guard_sample"] = "%d of %d generated layouts satisfy layout_okb" % (vals.count("true"), len(vals))
+    else:
+        ctx.notes.append("guard coverage could not be evaluated")
 
 
 def consts(repo):
@@ -320,7 +345,7 @@ LEVEL_TEXT = ("Machine-checked Coq theorems over an executable Gallina copy of i
               "search and domain iterator, and unary.Iterator (SetBounds/Seek*/Next/Prev explicit and AutoSpan, accumulate/sliceDomain/"
               "pickSampleOffset/approximateStart/End/insert/satisfied): search_spec (binary search = Exactly i / Between (k-1) k); "
               "Distance inside an index domain yields the exact sample count under every exact/inexact flag combination; for EVERY layout "
-              "satisfying the decidable guard layout_ok, every bounds and EVERY command sequence each non-erroring command returns exactly "
+              "satisfying the hypothesis layout_ok (decidable check proved sound), every bounds and EVERY command sequence each non-erroring command returns exactly "
               "the stored samples of its view (C10_step_exact_partial, by a structural theorem: the frame of a step is the in-order slices "
               "of all domains overlapping the view, wherever earlier commands left the domain iterator); for ALL layouts step views lie in "
               "the bounds and consecutive same-direction steps are adjacent (C10_views_adjacent_and_bounded); a forward traversal visits "
@@ -329,7 +354,7 @@ LEVEL_TEXT = ("Machine-checked Coq theorems over an executable Gallina copy of i
               "after every command inside Coq; a decidable monitor states the property on the implementation's observations.")
 LEVEL_NOTE = ("Trusted: Coq kernel/vm_compute; hand-written model (tied by correspondence, not translation); harness + hook "
               "VerifOpenUnaryIterator; sample<->bytes codec of the harness; generator. Theorems closed under the global context. "
-              "partial: exactness/traversal theorems carry the guard layout_ok (data domain within one index domain) and the forward "
+              "partial: exactness/traversal theorems carry the hypothesis layout_ok and the forward "
               "direction; the rest is observed by the correspondence. Finding F1 (stepping relied on the stale domain-iterator position; "
               "AutoSpan chunk loops returned samples outside the view, panicked, or recursed without bound) was found by this check and "
               "repaired by fix commit e87d2c5 (C10_legacy_steps_refuted keeps witnesses); F24 (backwardStamp EOF) is a known finding "
